@@ -3550,6 +3550,9 @@ class Interp:
             raise AnalysisError(f"unsupported comprehension at {ctx.loc(node)}")
         g = node.generators[0]
         itv = self.prune(self.eval(g.iter, st, ctx), st)
+        if (isinstance(itv, tuple) and len(itv) == 3 and itv[0] == "app" and itv[1] in ("list", "builtins.list", "tuple", "builtins.tuple") and isinstance(itv[2], tuple)
+                and itv[2][:1] == ("sym",) and isinstance(itv[2][2], tuple) and itv[2][2][:1] in (("set",), ("list",))):
+            itv = itv[2]        # a comprehension over list(xs) / tuple(xs) of a collection visits the members of xs
         items = self.iter_items(itv, st, ctx, node)
         if g.ifs and items is not None:
             # concrete items: keep those whose filter is decided true; a filter that stays symbolic gives a
